@@ -866,7 +866,7 @@ func ruleLossyNum(c *Ctx, r *Report, fs []*FuncInfo, floor int) {
 			default:
 				return true
 			}
-			k := f.Name + "|" + types.ExprString(call.Args[0])
+			k := f.Name + "|" + canonExprString(f, call.Args[0])
 			if why, ok := lossyNumExceptions[k]; ok {
 				r.Exc(fmt.Sprintf("%s:float(%s)", f.Name, types.ExprString(call.Args[0])), c.Pos(call.Pos()), why)
 				return true
@@ -1377,7 +1377,82 @@ func ruleMergeUnset(c *Ctx, r *Report) {
 		r.Und("ygot.copyStruct:signature", c.Pos(f.Decl.Pos()), "expected (dst, src, …)")
 		return
 	}
-	// src field variable(s): defined as srcVal.Field(i)
+	refHelpers := map[string]bool{"copyPtrField": true, "copyInterfaceField": true, "copySliceField": true, "copyMapField": true, "copyOrderedMap": true, "copyBinaryField": true}
+	n := 0
+	// checkWrites: in function g, every whole-field write dst.Set(src) — src identified by isSrc —
+	// happens under a fact that the source value is set (non-zero).
+	checkWrites := func(g *FuncInfo, isSrc func(ast.Expr) bool) {
+		ginfo := g.Info()
+		nonZeroFact := func(at ast.Node) (bool, string) {
+			for _, ft := range c.FactsAt(g, at, false) {
+				var conds []ast.Expr
+				pos := ft.Pos
+				switch ft.Kind {
+				case "cond":
+					conds = []ast.Expr{ft.Cond}
+				case "switch":
+					conds, pos = ft.Vals, true
+				default:
+					continue
+				}
+				for _, cd := range conds {
+					var cs []ast.Expr
+					if pos {
+						flattenAnd(cd, &cs)
+					} else {
+						flattenOr(cd, &cs) // !(a || b) = !a && !b
+					}
+					for _, e := range cs {
+						e = ast.Unparen(e)
+						epos := pos
+						if u, ok := e.(*ast.UnaryExpr); ok && u.Op == token.NOT {
+							e, epos = ast.Unparen(u.X), !epos
+						}
+						if call, ok := e.(*ast.CallExpr); ok && !epos && FullName(Callee(ginfo, call)) == "reflect.Value.IsZero" && isSrc(call.Fun.(*ast.SelectorExpr).X) {
+							return true, "!" + types.ExprString(e)
+						}
+						be, ok := e.(*ast.BinaryExpr)
+						if !ok || !((be.Op == token.NEQ && epos) || (be.Op == token.EQL && !epos)) {
+							continue
+						}
+						if v, ok := ConstOf(ginfo, be.Y); !ok || v != "0" {
+							continue
+						}
+						x := ast.Unparen(be.X)
+						if id, ok := x.(*ast.Ident); ok {
+							if d := parallelDef(g, ginfo.ObjectOf(id)); d != nil {
+								x = ast.Unparen(d)
+							}
+						}
+						if call, ok := x.(*ast.CallExpr); ok {
+							if sel, ok := call.Fun.(*ast.SelectorExpr); ok && isSrc(sel.X) {
+								switch FullName(Callee(ginfo, call)) {
+								case "reflect.Value.Int", "reflect.Value.Uint", "reflect.Value.Len":
+									if epos {
+										return true, types.ExprString(e)
+									}
+									return true, "not (" + types.ExprString(e) + ")"
+								}
+							}
+						}
+					}
+				}
+			}
+			return false, ""
+		}
+		ast.Inspect(g.Decl.Body, func(x ast.Node) bool {
+			call, ok := x.(*ast.CallExpr)
+			if !ok || FullName(Callee(ginfo, call)) != "reflect.Value.Set" || len(call.Args) != 1 || !isSrc(call.Args[0]) {
+				return true
+			}
+			n++
+			ok2, why := nonZeroFact(call)
+			r.Check(ok2, fmt.Sprintf("%s:by-value-write#%d", g.Name, n), c.Pos(call.Pos()), "only when the source sets the field: "+why,
+				g.Name+" copies a by-value source field into the destination without testing that the source sets it: a zero (unset) field of b replaces the value set in a, e.g. a leaf of type empty set only in a is lost by MergeStructs(a, b) but kept by MergeStructs(b, a)")
+			return true
+		})
+	}
+	// src field variable(s) of copyStruct: defined as srcVal.Field(i)
 	isSrcField := func(e ast.Expr) bool {
 		id, ok := ast.Unparen(e).(*ast.Ident)
 		if !ok {
@@ -1394,69 +1469,32 @@ func ruleMergeUnset(c *Ctx, r *Report) {
 		sel := call.Fun.(*ast.SelectorExpr)
 		return ObjOf(info, sel.X) == ps[1]
 	}
-	nonZeroFact := func(n ast.Node) (bool, string) {
-		for _, ft := range c.FactsAt(f, n, false) {
-			conds := []ast.Expr{ft.Cond}
-			if ft.Kind == "switch" {
-				conds = ft.Vals
-			} else if ft.Kind != "cond" {
-				continue
-			}
-			for _, cd := range conds {
-				var cs []ast.Expr
-				if ft.Kind == "cond" && !ft.Pos {
-					// a negated fact only helps when it is `!(x.IsZero())`, handled below.
-					if call, ok := ast.Unparen(cd).(*ast.CallExpr); ok && FullName(Callee(info, call)) == "reflect.Value.IsZero" && isSrcField(call.Fun.(*ast.SelectorExpr).X) {
-						return true, "!" + types.ExprString(cd)
-					}
-					continue
-				}
-				flattenAnd(cd, &cs)
-				for _, e := range cs {
-					be, ok := ast.Unparen(e).(*ast.BinaryExpr)
-					if !ok || be.Op != token.NEQ {
-						continue
-					}
-					if v, ok := ConstOf(info, be.Y); !ok || v != "0" {
-						continue
-					}
-					// vSrc != 0 where vSrc := srcField.Int()
-					x := ast.Unparen(be.X)
-					if id, ok := x.(*ast.Ident); ok {
-						if d := singleDefMulti(f, info.ObjectOf(id)); d != nil {
-							x = ast.Unparen(d)
-						}
-					}
-					if call, ok := x.(*ast.CallExpr); ok {
-						if sel, ok := call.Fun.(*ast.SelectorExpr); ok && isSrcField(sel.X) {
-							switch FullName(Callee(info, call)) {
-							case "reflect.Value.Int", "reflect.Value.Uint", "reflect.Value.Len":
-								return true, types.ExprString(e)
-							}
-						}
-					}
-				}
-			}
-		}
-		return false, ""
-	}
-	n := 0
+	checkWrites(f, isSrcField)
+	// by-value kinds handled by an extracted helper h(dstField, srcField, …).
+	seenHelper := map[*FuncInfo]bool{}
 	ast.Inspect(f.Decl.Body, func(x ast.Node) bool {
 		call, ok := x.(*ast.CallExpr)
-		if !ok || FullName(Callee(info, call)) != "reflect.Value.Set" || len(call.Args) != 1 || !isSrcField(call.Args[0]) {
+		if !ok || len(call.Args) < 2 || !isSrcField(call.Args[1]) {
 			return true
 		}
-		n++
-		ok2, why := nonZeroFact(call)
-		r.Check(ok2, fmt.Sprintf("ygot.copyStruct:by-value-write#%d", n), c.Pos(call.Pos()), "only when the source sets the field: "+why,
-			"copyStruct copies a by-value source field into the destination without testing that the source sets it: a zero (unset) field of b replaces the value set in a, e.g. a leaf of type empty set only in a is lost by MergeStructs(a, b) but kept by MergeStructs(b, a)")
+		h := c.funcOfCallee(Callee(info, call))
+		if h == nil || h == f || refHelpers[h.Decl.Name.Name] || seenHelper[h] {
+			return true
+		}
+		seenHelper[h] = true
+		hp := paramObjs(h)
+		if len(hp) < 2 {
+			return true
+		}
+		hinfo := h.Info()
+		checkWrites(h, func(e ast.Expr) bool { return ObjOf(hinfo, e) == hp[1] })
 		return true
 	})
 	if n == 0 {
 		r.Und("ygot.copyStruct:by-value-write", c.Pos(f.Decl.Pos()), "no direct dstField.Set(srcField) found: by-value kinds are handled elsewhere, re-confirm the rule")
 	}
 	// reference-kind helpers: first statement(s) return when the source is nil.
-	for _, h := range []struct{ name, what string }{{"copyPtrField", "IsNilOrInvalidValue(srcField)"}, {"copyInterfaceField", "IsNilOrInvalidValue(srcField)"}, {"copySliceField", "nil or empty source"}} {
+	for _, h := range []struct{ name, what string }{{"copyPtrField", "IsNilOrInvalidValue(srcField)"}, {"copyInterfaceField", "IsNilOrInvalidValue(srcField)"}, {"copySliceField", "nil or empty source"}, {"copyBinaryField", "nil source"}} {
 		g := c.MustFunc(r, "ygot", h.name)
 		if g == nil {
 			continue
@@ -1527,8 +1565,8 @@ func ruleMergeUnset(c *Ctx, r *Report) {
 	}
 }
 
-// singleDefMulti: like singleDef, but also accepts `a, b := x.Int(), y.Int()` (parallel definitions).
-func singleDefMulti(f *FuncInfo, obj types.Object) ast.Expr {
+// parallelDef: the single right-hand side paired with obj, also in `a, b := x.Int(), y.Int()`.
+func parallelDef(f *FuncInfo, obj types.Object) ast.Expr {
 	return singleDef(f, obj)
 }
 
